@@ -293,7 +293,7 @@ def study_config_of(ss):
 def presentation_stage(c):
   from vizier import pyvizier as vz
   from vizier._src.pyvizier.oss import proto_converters as pcv
-  n_spaces = 150 if c.tier == 'quick' else 1500
+  n_spaces = 300 if c.tier == 'quick' else 2500
   per = 8 if c.tier == 'quick' else 12
   reqs_w, reqs_raw, reqs_j, meta = [], [], [], []
   for si in range(n_spaces):
@@ -356,7 +356,7 @@ def client_stage(c):
   from vcheck import svc
   from vizier import pyvizier as vz
   from vizier._src.service import clients, vizier_client
-  n_spaces = 5 if c.tier == 'quick' else 25
+  n_spaces = 8 if c.tier == 'quick' else 40
   per = 6 if c.tier == 'quick' else 10
   backends = [('ram', {'database_url': None}), ('sql', {'database_url': 'sqlite:///:memory:'})]
   reqs_m, reqs_j, meta = [], [], []
